@@ -92,7 +92,7 @@ def _run_job(i):
             k, vn, v = arg
             return verify.verify_mapper_method(contract, k, _SPECS, hooks=hooks, variant=v, variant_name=vn)
         if kind == "function":
-            return verify.verify_function(contract, _SPECS, hooks=hooks)
+            return verify.verify_function(contract, _SPECS, hooks=hooks, rlimit=getattr(contract, "rlimit", 20_000_000))
         if kind == "custom":
             return contract(arg)
     except Exception as e:  # noqa: BLE001
